@@ -78,7 +78,8 @@ def run_unit(unit, rlimit=None, seed=None, threads=4, timeout=900):
     origins = meta["origins"]
     # refuse assume()/admit() inside the verified text
     for sc in meta["trusted_scan"]:
-        if sc["what"] in ("admit(", "assume("):
+        # axioms in hand-written spec files are listed in trusted_base; inside text extracted from /repo they are refused
+        if sc["what"] in ("admit(", "assume(") and sc["origin"].startswith(("src/", "provider/", "temporal_capi/")):
             res["reason"] = "assume/admit in verified text at gen line %d" % sc["line"]
             return res
     cmd = ["verus", os.path.basename(gen_path), "--output-json", "--time", "--num-threads", str(threads), "--multiple-errors", "5"]
